@@ -434,6 +434,9 @@ def rule_rd_decode(cx, rep, port):
             ok = any(names_in(t_) & rawdep for t_ in content)
             if not content:
                 rep.undecided('bulk validity test', errs[0], 'no guard over the data found for the bulk decoding error')
+            elif ok and all(all((isinstance(x, ast.Call) and dotted(x.func) in ('len', 'Buffer.byteLength')) or (isinstance(x, ast.Attribute) and x.attr in ('length', 'byteLength')) or not (names_in(x) & (rawdep | decoded)) for x in ([t_.left] + list(t_.comparators) if isinstance(t_, ast.Compare) else [t_])) for t_ in content):
+                # the raw bytes enter the test only through their length
+                rep.violated('bulk validity test', content[0], 'bulk input is rejected by comparing sizes only (`{}`): an invalid sequence whose replacement U+FFFD (3 bytes) is as long as the bytes it replaces - a 4-byte character cut after its third byte - passes as valid UTF-8'.format(node_text(content[0], 80)))
             else:
                 rep.decide(ok, 'bulk validity test', content[0], 'the rejection test compares against the raw bytes', 'bulk input is rejected by a test on the decoded text only (`{}`): valid UTF-8 that contains the tested character (U+FFFD, bytes EF BF BD) is rejected, and the stream path accepts the same file'.format(node_text(content[0], 80)))
 
